@@ -55,12 +55,13 @@ def gen_custom(rng, p=0.4):
     return out
 
 
-def gen_batches(rng, n_max=3, p_custom=0.4, p_k=0.15, sims=4, p_time=0.3):
+def gen_batches(rng, n_max=3, p_custom=0.4, p_k=0.15, sims=4, p_time=0.3, p_reprop=0.0):
     bs = []
     for _ in range(rng.choice([1, 1, 2, n_max])):
         b = {'stim': gen_stim(rng), 'seed': rng.randint(0, 5), 'custom': gen_custom(rng, p_custom)}
         if rng.random() < p_k and sims > 1: b['k'] = rng.randint(1, sims - 1)
         if rng.random() < p_time: b['time'] = rng.choice([0, 1, 2.5, 5, 7.75, 10, 12.5, 20, 50, 1000])
+        if rng.random() < p_reprop: b['reprop'] = True      # a second c_prop() on the same assignment before results are read
         bs.append(b)
     return bs
 
@@ -70,8 +71,12 @@ def gen_actrl(rng, p=0.35):
     n_acc = rng.randint(1, 4)
     rows = []
     for _ in range(rng.randint(1, 9)):
-        if rng.random() < 0.25: rows.append([-1, rng.randint(0, 3), rng.randint(0, 3)])
-        else: rows.append([rng.randrange(n_acc), rng.choice([0, 1, 1, 2, 5]), rng.choice([0, 1, 1, 3, 7])])
+        r = rng.random()
+        if r < 0.2: rows.append([-1, rng.randint(0, 3), rng.randint(0, 3)])
+        elif r < 0.35:      # net toggles: rise and fall weights cancel
+            w = rng.choice([1, 1, 2, 5])
+            rows.append([rng.randrange(n_acc), w, -w] if rng.random() < 0.5 else [rng.randrange(n_acc), -w, w])
+        else: rows.append([rng.randrange(n_acc), rng.choice([0, 1, 1, 2, 5, -1, -3]), rng.choice([0, 1, 1, 3, 7, -2])])
     return {'rows': rows, 'plus3': rng.random() < 0.5}   # False: the documented shape (len(lines), 3)
 
 
@@ -121,3 +126,4 @@ def shrink_wave_case(case):
             yield rep(dict(b, stim=b['stim'][:len(b['stim']) // 2]))
             yield rep(dict(b, stim=b['stim'][len(b['stim']) // 2:]))
         if b.get('ppo2ppi'): yield rep(dict(b, ppo2ppi=False))
+        if b.get('reprop'): yield rep({k: v for k, v in b.items() if k != 'reprop'})
